@@ -224,11 +224,13 @@ def generate(seed, tier):
                  if 'f' in c and sites(c['f'])]
     for _ in range(er.randrange(1, t['max_exes'])):
         k = er.weighted([('todict', 1), ('deepcopy', 1.5), ('dill', 1),
-                         ('compile', 2.5 if const_cells else 0),
+                         ('compile', 2.5),
                          ('formula', 1.5), ('copyof', 1.5)])
         if k == 'compile':
             ins = er.sample(const_cells, er.randrange(1, min(
-                3, len(const_cells)) + 1))
+                3, len(const_cells)) + 1)) if const_cells else []
+            if er.chance(.2):
+                ins = []      # a function without arguments
             # compiled from the loaded model or from a copy / re-import of it
             srcs = [j for j, e in enumerate(exes)
                     if e['kind'] in ('model', 'todict') or (
